@@ -16,7 +16,7 @@ import (
 
 func init() { Registry["C15"] = C15 }
 
-var goagFrameRe = regexp.MustCompile(`(?m)^\s+(?:/repo|[^\s]*vkd/goag[^\s/]*)/([a-z_/]+\.go):(\d+)`)
+var goagFrameRe = regexp.MustCompile(`(?m)^\s+(?:` + regexp.QuoteMeta(core.RepoDir()) + `|[^\s]*vkd/goag[^\s/]*)/([a-z_/]+\.go):(\d+)`)
 
 func panicSite(stack string) string {
 	// first frame inside goag below the panic
@@ -74,9 +74,12 @@ func C15(r *core.Run) int {
 	var cases []specgen.Case
 	ops := map[string]int{}
 	for bi, b := range bases {
-		for _, m := range specgen.Mutants(b.doc, r.Seed*1000+int64(bi), perBase) {
+		for mi, m := range specgen.Mutants(b.doc, r.Seed*1000+int64(bi), perBase) {
+			// every third mutant runs without the API handler (client and
+			// components only): other render paths are reached first
+			fl := specgen.Flags{Client: true, NoAPIHandler: (mi+bi)%3 == 2}
 			cases = append(cases, specgen.Case{ID: "mut/" + b.id + "/" + m.ID, Family: "mutant", Spec: m.Doc,
-				Flags: specgen.Flags{Client: true}, Label: map[string]string{"op": m.Op, "base": b.id}})
+				Flags: fl, Label: map[string]string{"op": m.Op, "base": b.id}})
 			ops[strings.SplitN(m.Op, "=", 2)[0]]++
 		}
 	}
